@@ -1,3 +1,3 @@
-(* _client.py :: ncrypt_unprotect_secret :: shape kernel :  _sync_get_key(... argument 2 = blob.key_identifier.root_key_identifier ...) *)
-Definition k_onl_unprot_arg2 (blob_key_identifier_root_key_identifier : list Z) : list Z :=
-  blob_key_identifier_root_key_identifier.
+(* _client.py :: ncrypt_unprotect_secret :: shape kernel :  _sync_get_key(... 2: blob.key_identifier.root_key_identifier  [= DPAPINGBlob.unpack(data).key_identifier.root_key_identifier] ...) *)
+Definition k_onl_unprot_arg2 (root_key_identifier : list Z) : list Z :=
+  root_key_identifier.
